@@ -1,5 +1,6 @@
 import Cpppo.Proofs.Codec.Encap
 import Cpppo.Proofs.Codec.Typed
+import Cpppo.Generated.Tables
 
 /-!
 # C01 — Wire codec round-trip over the whole EtherNet/IP CIP message grammar
@@ -16,7 +17,7 @@ parsers report, and `encode (decode bytes) = bytes` (the independent encoder yie
 
 `WF` predicates are the field ranges of the wire formats plus the canonical-form conditions the code
 itself documents (no extended status with status 0; narrowest EPATH segment form; port ≥ 15 in extended
-form; a Large Forward Open's parameters > 0xFFFF; an item of unrecognised type only in last position).
+form; a Large Forward Open's parameters > 0xFFFF).
 -/
 namespace Cpppo.Codec
 open Cpppo
@@ -104,6 +105,34 @@ theorem typed_real_roundtrip (ws : List Nat) (h : ∀ w ∈ ws, w < 2 ^ 32 ∧ F
 
 theorem typed_lreal_roundtrip (ws : List Nat) (h : ∀ w ∈ ws, w < 2 ^ 64) :
     decodeVals .lreal ((ws.map (Bytes.le 8)).flatten) = some (ws.map .f64) := decodeVals_lreal ws h
+
+/-! ### Tie: the constants the layout-table codec uses are the ones the live classes register
+(`Cpppo.Generated` is regenerated from the imported modules on every run; a changed opcode, item id,
+command or service code, or header field breaks one of these obligations) -/
+
+theorem tie_header :
+    Generated.codecHeaderSize = 24
+    ∧ Generated.codecHeaderFields.map (fun f => (f.2.1, f.2.2))
+        = [("<H", 2), ("<H", 2), ("<I", 4), ("<I", 4), ("octets", 8), ("<I", 4)] := by decide
+
+theorem tie_epath_opcodes :
+    Generated.epathOpcodes
+      = [("attribute", 0x30), ("class", 0x20), ("connection", 0x2c), ("element", 0x28), ("instance", 0x24),
+         ("port", 0x00), ("symbolic", 0x91)] := by decide
+
+theorem tie_cpf_items :
+    Generated.cpfItemIds = [0x0001, 0x000C, 0x00A1, 0x00B1, 0x00B2, 0x0100]
+    ∧ Generated.cpfItemIds.all recognised = true := by decide
+
+theorem tie_commands :
+    Generated.encapCommands.map (·.1) = [0x0001, 0x0004, 0x0063, 0x0064, 0x0065, 0x0066, 0x006F, 0x0070] := by decide
+
+theorem tie_services :
+    Generated.objectServices
+      = [("GA_ALL", 0x01), ("GA_LST", 0x03), ("GA_SNG", 0x0E), ("SA_SNG", 0x10), ("MULTIPLE", 0x0A),
+         ("FWD_OPEN", 0x54), ("FWD_OPLG", 0x5B), ("FWD_CLOS", 0x4E)]
+    ∧ (Generated.svcReadTag, Generated.svcReadFrag, Generated.svcWriteTag, Generated.svcWriteFrag)
+        = (0x4C, 0x52, 0x4D, 0x53) := by decide
 
 /-! ### Non-vacuity: a concrete SendRRData request (tests of the hypotheses, not the claim) -/
 
